@@ -294,7 +294,13 @@ func (fr *FuncRun) timeStub(f *Frame, st *State, c *ssa.CallCommon, callee *ssa.
 		now := fr.fresh(sInt, "now_ns")
 		return Val{T: fr.def(sInt, "(- "+now+" "+ns(args[0].T)+")"), S: sInt}, true
 	case "(time.Duration).Seconds":
-		return Val{T: fr.def(sReal, "(/ (to_real "+args[0].T+") 1000000000.0)"), S: sReal}, true
+		r := fr.def(sReal, "(/ (to_real "+args[0].T+") 1000000000.0)")
+		// remembered so that a conversion back to an integer is an integer division (exact in the real model)
+		if fr.realQuot == nil {
+			fr.realQuot = map[string][2]string{}
+		}
+		fr.realQuot[r] = [2]string{args[0].T, "1000000000"}
+		return Val{T: r, S: sReal}, true
 	case "(time.Duration).Milliseconds":
 		return Val{T: fr.def(sInt, "(ite (>= "+args[0].T+" 0) (div "+args[0].T+" 1000000) (- (div (- "+args[0].T+") 1000000)))"), S: sInt}, true
 	case "(time.Duration).Nanoseconds":
